@@ -233,20 +233,20 @@ CHECKS["C19"] = {
 
 def unpack_items(tier):
     if tier == "quick":
-        cfg = [(1, 4, 5, 4), (2, 2, 2, 6)]
+        cfg = [(1, 4, 5, 6), (2, 2, 2, 10)]
     else:
         cfg = [(1, 7, 7, 16), (2, 4, 4, 16), (3, 2, 2, 16)]
     out = [{"id": "unpack-K%d-%dx%d" % (k, a, b), "entry": "HarnessUnpackSafety", "params": {"K": k, "nName": a, "nLink": b}, "shards": sh, "_w": 50} for (k, a, b, sh) in cfg]
     if tier == "quick":
-        seg = [("HarnessUnpackSeg", {"K": 1, "sName": 2, "sLink": 4}, 6), ("HarnessUnpackSeg", {"K": 2, "sName": 1, "sLink": 2}, 8),
-               ("HarnessUnpackStep", {"K": 1, "sName": 2, "sLink": 1, "sPre": 2}, 8),
-               ("HarnessUnpackStep", {"K": 1, "sName": 2, "sLink": 1, "sPre": 1, "nDst": 6}, 8),
-               ("HarnessUnpackStep", {"K": 2, "sName": 1, "sLink": 1, "sPre": 1}, 10)]
+        seg = [("HarnessUnpackSeg", {"K": 1, "sName": 2, "sLink": 4}, 6), ("HarnessUnpackSeg", {"K": 2, "sName": 1, "sLink": 2}, 20),
+               ("HarnessUnpackStep", {"K": 1, "sName": 2, "sLink": 1, "sPre": 2}, 12),
+               ("HarnessUnpackStep", {"K": 1, "sName": 2, "sLink": 1, "sPre": 1, "nDst": 6}, 16),
+               ("HarnessUnpackStep", {"K": 2, "sName": 1, "sLink": 1, "sPre": 1, "preDir": 0}, 20)]
     else:
         seg = [("HarnessUnpackSeg", {"K": 1, "sName": 4, "sLink": 5}, 16), ("HarnessUnpackSeg", {"K": 2, "sName": 3, "sLink": 4}, 16), ("HarnessUnpackSeg", {"K": 3, "sName": 2, "sLink": 3}, 16),
                ("HarnessUnpackStep", {"K": 1, "sName": 4, "sLink": 3, "sPre": 4}, 16), ("HarnessUnpackStep", {"K": 2, "sName": 3, "sLink": 3, "sPre": 3}, 16)]
     for (entry, params, sh) in seg:
-        out.append({"id": "%s-%s" % (entry[7:].lower(), "-".join("%s%d" % kv for kv in sorted(params.items()))), "entry": entry, "params": params, "shards": sh, "_w": 60})
+        out.append({"id": "%s-%s" % (entry[7:].lower(), "-".join("%s%d" % kv for kv in sorted(params.items()))), "entry": entry, "params": params, "shards": sh, "_w": 60, "shard_depth": 14})
     return out
 
 
@@ -257,7 +257,7 @@ CHECKS["C01"] = {
     "explanation": "entry sequences x names x link targets are symbolic; the monitor is the model filesystem's mutation log compared segment-wise with dst; natively: before/after snapshot of the arena around dst",
     "anchors": ["(*github.com/hashicorp/go-slug.Packer).Unpack", "github.com/hashicorp/go-slug/internal/unpackinfo.NewUnpackInfo", "(*github.com/hashicorp/go-slug.Packer).validSymlink",
                 "(github.com/hashicorp/go-slug/internal/unpackinfo.UnpackInfo).RestoreInfo"],
-    "bounds": {"quick": "raw byte names: K=1 entry name 0..4 bytes, link target 0..5 bytes; K=2: 0..2 / 0..2; 6 type flags, mode 9 free bits. Segment-structured (names of 1 free byte, segments name/../././empty, optional leading slash): K=1 name <=2 segments, target <=4; K=2 name 1, target <=2. Inductive step (also with 6 spellings of dst: doubled slash, dot segments, trailing slash, via ..; and with K=2 single-segment entries): destination already holding one arbitrary symlink (target <=2 segments, absolute or not) and maybe a directory, then one entry (name <=2 segments, target <=1). dst=/w/d (absolute, clean) with sibling /w/d2, victim files and directory",
+    "bounds": {"quick": "raw byte names: K=1 entry name 0..4 bytes, link target 0..5 bytes; K=2: 0..2 / 0..2; 6 type flags, mode 9 free bits. Segment-structured (names of 1 free byte, segments name/../././empty, optional leading slash): K=1 name <=2 segments, target <=4; K=2 name 1, target <=2. Inductive step (also with 6 spellings of dst: doubled slash, dot segments, trailing slash, via ..; and with K=2 single-segment entries, there without the extra directory): destination already holding one arbitrary symlink (target <=2 segments, absolute or not) and maybe a directory, then one entry (name <=2 segments, target <=1). dst=/w/d (absolute, clean) with sibling /w/d2, victim files and directory",
                "thorough": "raw: K=1: 0..7 / 0..7; K=2: 0..4 / 0..4; K=3: 0..2 / 0..2; segments: K=1 (4,5), K=2 (3,4), K=3 (2,3); step: K=1 (name 4, pre-link 4), K=2 (3,3)"},
     "assumptions": A_COMMON + ["A-tar: archive/tar + gzip deliver the headers written (names without NUL); byte-level stream corruption is outside", "vfs: root privileges, ELOOP after 8 hops, closed world /w"],
     "groups": [
@@ -309,6 +309,9 @@ CHECKS["C05"] = dict(CHECKS["C20"], **{
 })
 
 
+CHECKS["C05"]["bounds"] = {"quick": "N=1 node (link target 1..4 bytes), N=2 nodes (targets 1..3 bytes); option sets plain and dereference; names 1 free byte, permissions 9 free bits",
+                          "thorough": "N=1 (targets 1..6), N=2 (1..4), N=3 (1..2); option sets plain, dereference, dereference+ignore"}
+
 CHECKS["C19"]["groups"].append(
     slug_group("pack", ["harness/slug/unpack.go", "harness/slug/pack.go"],
                quick=[dict(it, no_panic=True) for it in pack_items("quick", [1, 3])], thorough=[dict(it, no_panic=True) for it in pack_items("thorough", [0, 1, 2, 3])],
@@ -336,7 +339,7 @@ CHECKS["C15"] = {
     "anchors": ["(*github.com/hashicorp/go-slug.Packer).Unpack", "github.com/hashicorp/go-slug/internal/unpackinfo.NewUnpackInfo", "(github.com/hashicorp/go-slug/internal/unpackinfo.UnpackInfo).RestoreInfo",
                 "(github.com/hashicorp/go-slug/internal/unpackinfo.UnpackInfo).restoreDirectory", "(github.com/hashicorp/go-slug/internal/unpackinfo.UnpackInfo).restoreNormal"],
     "bounds": {"quick": "K=1 and K=2 entries, 10 name spellings, 4 kinds (4 link targets, 4 unrepresentable flags), mode 9 free bits, mtime 6 free bits", "thorough": "K=3"},
-    "assumptions": PACK_ASSUME + ["well-formedness (assumed): no '..' in names, link targets in-tree, a path is not both a directory and a non-directory, links are not repeated"],
+    "assumptions": PACK_ASSUME + ["well-formedness (assumed): no '..' in names, link targets in-tree, a path is not both a file and a directory, nothing is named below a file or link, a link does not come after another entry for the same path (an earlier link may be replaced by a file or a directory)"],
     "groups": [slug_group("c15", ["harness/slug/unpack.go", "harness/slug/c15.go"],
                           quick=[{"id": "c15-K1", "entry": "HarnessC15", "params": {"K": 1}}, {"id": "c15-K2", "entry": "HarnessC15", "params": {"K": 2}, "shards": 8, "_w": 50}],
                           thorough=[{"id": "c15-K2", "entry": "HarnessC15", "params": {"K": 2}, "shards": 4}, {"id": "c15-K3", "entry": "HarnessC15", "params": {"K": 3}, "shards": 16}],
@@ -356,11 +359,12 @@ CHECKS["C16"] = {
     "level_note": PACK_NOTE + " Concurrent Pack calls (goroutine schedules, data races) are not addressable by this technique and are not claimed.",
     "explanation": "spelling of the source path and working directory symbolic; history = 12 concrete rule files parsed before; outputs compared entry by entry",
     "anchors": ["(*github.com/hashicorp/go-slug.Packer).Pack", "(*github.com/hashicorp/go-slug.Packer).packWalkFn$1", "github.com/hashicorp/go-slug.parseIgnoreFile", "github.com/hashicorp/go-slug/internal/ignorefiles.readRules"],
-    "bounds": {"quick": "tree N=1..2 symbolic nodes; spelling 1..5 free bytes x 4 working directories x option sets plain/ignore; history: 12 rule files", "thorough": "spelling 1..7 bytes; N=2; 4 option sets"},
+    "bounds": {"quick": "tree N=1..2 symbolic nodes; spelling 1..5 free bytes x 4 working directories x option sets plain/ignore; dereferencing with N=1, spelling 1..4 bytes and the node's link target from a menu of 8 out-of-tree targets (chains through relative and absolute links to a file or a directory); history: 12 rule files", "thorough": "spelling 1..7 bytes; N=2; 4 option sets"},
     "assumptions": PACK_ASSUME + ["schedules (concurrent Pack calls) are outside the technique"],
     "groups": [slug_group("c16", ["harness/slug/unpack.go", "harness/slug/pack.go", "harness/slug/c16.go"],
                           quick=[{"id": "spell-N1-5-o%d" % o, "entry": "HarnessC16Spelling", "params": {"N": 1, "nSrc": 5, "opts": o}, "shards": 4, "_w": 30} for o in (0, 2)]
                           + [{"id": "spell-N2-4-o0", "entry": "HarnessC16Spelling", "params": {"N": 2, "nSrc": 4, "opts": 0}, "shards": 4, "_w": 30},
+                             {"id": "spell-N1-4-o1-menu", "entry": "HarnessC16Spelling", "params": {"N": 1, "nSrc": 4, "opts": 1, "linkMenu": 1}, "shards": 4, "_w": 30},
                              {"id": "hist-N1", "entry": "HarnessC16History", "params": {"N": 1}, "_w": 20}, {"id": "hist-N2", "entry": "HarnessC16History", "params": {"N": 2}, "shards": 2, "_w": 40}],
                           thorough=[{"id": "spell-N1-7-o%d" % o, "entry": "HarnessC16Spelling", "params": {"N": 1, "nSrc": 7, "opts": o}, "shards": 16} for o in (0, 1, 2, 3)]
                           + [{"id": "spell-N2-6-o0", "entry": "HarnessC16Spelling", "params": {"N": 2, "nSrc": 6, "opts": 0}, "shards": 16}, {"id": "hist-N2", "entry": "HarnessC16History", "params": {"N": 2}, "shards": 8}],
@@ -485,14 +489,15 @@ CHECKS["C17"] = {
     "explanation": "offered versions, their order, deprecations and the allowed set are symbolic; the selected version is compared with the brute-force newest offered-and-allowed one",
     "anchors": ["github.com/hashicorp/go-slug/sourcebundle.extractVersionListFromResponse", "(*github.com/hashicorp/go-slug/sourcebundle.Builder).findRegistryPackageSource", "(*github.com/hashicorp/go-slug/sourcebundle.Builder).AddRegistrySource",
                 "(*github.com/hashicorp/go-slug/sourcebundle.Bundle).RegistryPackageVersionDeprecation"],
-    "bounds": {"quick": "kernel: 1 offered version with pre-release tag (1-2 chars), 2 offered versions without; 6 allowed-set shapes with symbolic bounds; builder: 1 offered version (components {0,1}, 6 set shapes) and 2 offered versions (components {0,1}; sets All / Released / Only), two requests each",
+    "bounds": {"quick": "kernel: 1 offered version with pre-release tag (1-2 chars), 2 offered versions without; 6 allowed-set shapes with symbolic bounds; builder: 1 offered version (components {0,1}, 6 set shapes) and 2 offered versions (components {0,1}; sets All / Released / Only), two requests each; the same with each request addressed to one of two hosts carrying the same namespace/name/system (the second host offers only the first version; sets All / Released)",
                "thorough": "kernel: 2 versions with pre-release tags, 3 without; builder: 2 versions"},
     "assumptions": SB_ASSUME + ["pre-release tags: one identifier of 1-2 characters [0-9a-z]"],
     "groups": [sb_group("versions", ["harness/sourcebundle/c17.go"],
                         quick=[{"id": "kernel-n1-pre", "entry": "HarnessC17Kernel", "params": {"n": 1, "pre": 1}, "shards": 2, "_w": 20},
                                {"id": "kernel-n2", "entry": "HarnessC17Kernel", "params": {"n": 2, "pre": 0}, "shards": 8, "_w": 60},
                                {"id": "builder-n1", "entry": "HarnessC17Builder", "params": {"n": 1, "requests": 2, "vals": 2}, "shards": 8, "_w": 40},
-                               {"id": "builder-n2", "entry": "HarnessC17Builder", "params": {"n": 2, "requests": 2, "sets": 3, "vals": 2}, "shards": 12, "_w": 60}],
+                               {"id": "builder-n2", "entry": "HarnessC17Builder", "params": {"n": 2, "requests": 2, "sets": 3, "vals": 2}, "shards": 12, "_w": 60},
+                               {"id": "builder-n2-hosts", "entry": "HarnessC17Builder", "params": {"n": 2, "requests": 2, "sets": 2, "vals": 2, "hosts": 2}, "shards": 12, "_w": 60}],
                         thorough=[{"id": "kernel-n2-pre", "entry": "HarnessC17Kernel", "params": {"n": 2, "pre": 1}, "shards": 16},
                                   {"id": "kernel-n3", "entry": "HarnessC17Kernel", "params": {"n": 3, "pre": 0}, "shards": 16},
                                   {"id": "builder-n2", "entry": "HarnessC17Builder", "params": {"n": 2}, "shards": 16}],
@@ -507,12 +512,14 @@ CHECKS["C13"] = {
     "explanation": "Add order = symbolic permutation; map range order symbolic; content coincidence between packages symbolic; two builds compared field by field",
     "anchors": ["(*github.com/hashicorp/go-slug/sourcebundle.Builder).writeManifest", "(*github.com/hashicorp/go-slug/sourcebundle.Builder).ensureRemotePackage", "(*github.com/hashicorp/go-slug/sourcebundle.Bundle).SourceForLocalPath",
                 "(*github.com/hashicorp/go-slug/sourcebundle.Bundle).ChecksumV1", "github.com/hashicorp/go-slug/sourcebundle.OpenDir"],
-    "bounds": {"quick": "2 packages, 2 Add calls in both orders, 0-1 dependencies per location, symbolic content coincidence, 4 symbolic map orders per path",
+    "bounds": {"quick": "2 packages, 2 Add calls in both orders, 0-1 dependencies per location, symbolic content coincidence, 4 symbolic map orders per path; the same with symbolic commit metadata per package; 2 registry Add calls for one registry package (sub-path '' or 'm', allowed set All or exactly 1.0.0, registry targets symbolic) with remote dependencies from package 0",
                "thorough": "3 packages, 3 Add calls in all 6 orders, 1 dependency"},
     "assumptions": SB_ASSUME + ["sequential executor: interleavings of concurrent Add calls are not explored"],
     "groups": [sb_group("order", ["harness/sourcebundle/c13.go"],
                         quick=[{"id": "order-p2a2d0", "entry": "HarnessC13Order", "params": {"nPkg": 2, "nAdds": 2, "nDeps": 0, "symContent": 1}, "map_order": 4, "shards": 2, "_w": 30},
-                               {"id": "order-p2a2d1", "entry": "HarnessC13Order", "params": {"nPkg": 2, "nAdds": 2, "nDeps": 1, "symContent": 0}, "map_order": 2, "shards": 8, "_w": 60}],
+                               {"id": "order-p2a2d1", "entry": "HarnessC13Order", "params": {"nPkg": 2, "nAdds": 2, "nDeps": 1, "symContent": 0}, "map_order": 2, "shards": 8, "_w": 60},
+                               {"id": "order-p2a2d0-meta", "entry": "HarnessC13Order", "params": {"nPkg": 2, "nAdds": 2, "nDeps": 0, "symContent": 1, "symMeta": 1}, "map_order": 2, "shards": 4, "_w": 40},
+                               {"id": "order-reg-p2a2d1", "entry": "HarnessC13Order", "params": {"nPkg": 2, "nAdds": 2, "nDeps": 1, "symContent": 0, "regAdds": 1, "leaf": 1, "kinds": 3}, "map_order": 2, "shards": 8, "_w": 60}],
                         thorough=[{"id": "order-p3a3d0", "entry": "HarnessC13Order", "params": {"nPkg": 3, "nAdds": 3, "nDeps": 0, "symContent": 1}, "map_order": 4, "shards": 16},
                                   {"id": "order-p3a2d1", "entry": "HarnessC13Order", "params": {"nPkg": 3, "nAdds": 2, "nDeps": 1, "symContent": 1}, "map_order": 3, "shards": 16}],
                         reach=["two-builds"], sample_every=100, native_retries=12)],
@@ -620,7 +627,7 @@ CHECKS["C10"]["groups"].append(
     sb_group("build", ["harness/sourcebundle/c14.go"],
              quick=[it for it in build_items("quick") if it["id"] in ("build-m2d1a1", "build-r2d1a1")], thorough=[it for it in build_items("thorough") if "m3" in it["id"]],
              reach=["built"], sample_every=200))
-CHECKS["C10"]["bounds"]["quick"] += "; a package with rule file '*.log', c/a.log, c/k, c/m.log and a link c/z with a symbolic target (<=3 segments); world builds with coalescing packages (no temporary directory left, nothing outside touched)"
+CHECKS["C10"]["bounds"]["quick"] += "; a package with rule file '*.log', '/top.txt', 'g', 'd/' (a regular file, or an in-package link to one), top.txt, c/a.log, c/k, c/m.log, c/g, c/d/f and a link c/0 or c/z (walked before / after the excluded entries) with a symbolic target (<=3 segments), target directory given directly or through a symlink; world builds with coalescing packages (no temporary directory left, nothing outside touched)"
 
 # C20 / C02 / C05 extra items
 for _pid in ("C20", "C02", "C05"):
@@ -628,6 +635,14 @@ for _pid in ("C20", "C02", "C05"):
     g["quick"] = list(g["quick"])
     g["thorough"] = list(g["thorough"])
 CHECKS["C20"]["groups"][0]["quick"] += [{"id": "pack-N3-ext", "entry": "HarnessPack", "params": {"N": 3, "nLink": 1, "opts": 0, "ext": 1}, "shards": 10, "_w": 60}]
+for _pid in ("C20", "C02", "C05"):
+    CHECKS[_pid]["groups"][0]["quick"] += [{"id": "pack-N2-prior", "entry": "HarnessPack", "params": {"N": 2, "nLink": 3, "opts": 0, "prior": 1}, "shards": 8, "_w": 60}]
+    CHECKS[_pid]["bounds"]["quick"] += "; N=2 on a Packer that has already packed another tree (/w/q/r with a file and an in-tree link)"
+CHECKS["C20"]["groups"].append(slug_group("faults", ["harness/slug/unpack.go", "harness/slug/pack.go", "harness/slug/c12.go"],
+                                          quick=[{"id": "c20-fault-N1-o%d" % o, "entry": "HarnessC12Pack", "params": {"N": 1, "nLink": 2, "opts": o, "faults": 1}} for o in (0, 1)],
+                                          thorough=[{"id": "c20-fault-N2-o%d" % o, "entry": "HarnessC12Pack", "params": {"N": 2, "nLink": 2, "opts": o, "faults": 1}, "shards": 4} for o in (0, 1)],
+                                          reach=["write-fault-injected"], sample_every=30))
+CHECKS["C20"]["bounds"]["quick"] += "; N=1 with one injected failure at every position of the output stream (header write, body copy, flushes, tar close, gzip close): Pack must not return metadata with a nil error"
 CHECKS["C20"]["bounds"]["quick"] += "; N=3 with names that extend the previous node's name by one byte (a next to a-)"
 CHECKS["C02"]["groups"][0]["quick"] += [{"id": "pack-N1-name3", "entry": "HarnessPack", "params": {"N": 1, "nLink": 2, "opts": 0, "nName": 3}, "shards": 4, "_w": 30}]
 CHECKS["C02"]["bounds"]["quick"] += "; N=1 with names of 1..3 free bytes"
@@ -654,4 +669,42 @@ C07_REJECT += ["git::https://@example.com/r.git", "https://@example.com/a.tgz", 
                "git::https://example.com/r.git?ref=m&{a1}=a;b", "https://example.com/a.tgz?checksum=x%z{a1}", "git::ssh://example.com/r.git//s?depth=%z{a1}"]
 CHECKS["C07"]["groups"][0]["quick"] += tmpl_items("rej2", "HarnessC07Parse", C07_REJECT[-8:], params={"mustReject": 1})
 CHECKS["C08"]["groups"][0]["quick"] = build_items("quick") + [{"id": "build-f2", "entry": "HarnessBuild", "params": {"nPkg": 1, "nDeps": 1, "nReg": 0, "nAdds": 2, "relative": 1, "finders": 2}, "shards": 6, "_w": 40, "no_hang": True, "max_steps": 3000000}]
-CHECKS["C14"]["groups"][0]["quick"] = CHECKS["C08"]["groups"][0]["quick"]
+CHECKS["C08"]["groups"][0]["quick"] += [
+    {"id": "build-r2d1a1f2", "entry": "HarnessBuild", "params": {"nPkg": 2, "nDeps": 1, "nReg": 0, "nAdds": 1, "relative": 0, "finders": 2, "leaf": 1}, "shards": 8, "_w": 60, "no_hang": True, "max_steps": 3000000},
+    {"id": "build-g1d1a1f2", "entry": "HarnessBuild", "params": {"nPkg": 1, "nDeps": 1, "nReg": 1, "nAdds": 1, "relative": 0, "finders": 2, "twosets": 1, "kinds": 9}, "shards": 8, "_w": 60, "no_hang": True, "max_steps": 3000000}]
+CHECKS["C14"]["groups"][0]["quick"] = CHECKS["C08"]["groups"][0]["quick"] + [
+    {"id": "build-g1d2a1-faults", "entry": "HarnessBuild", "params": {"nPkg": 1, "nDeps": 2, "nReg": 1, "nAdds": 1, "relative": 0, "twosets": 1, "faults": 1, "kinds": 9}, "shards": 8, "_w": 60, "no_hang": True, "max_steps": 3000000}]
+
+CHECKS["C03"]["groups"][0]["quick"] = list(CHECKS["C03"]["groups"][0]["quick"]) + [{"id": "long-paths", "entry": "HarnessC03Paths"}]
+CHECKS["C03"]["bounds"]["quick"] += "; 16 concrete long paths (matching several built-in rules at once) x 5 rule files"
+
+# C03, bundle layer: the builder's deletion walk over a fetched package
+CHECKS["C03"]["groups"].append(
+    sb_group("bundle-walk", ["harness/common/ref_ignore.go", "harness/sourcebundle/c03bundle.go"],
+             quick=[{"id": "bwalk-f%02d" % f, "entry": "HarnessC03Bundle", "params": {"file": f}} for f in range(24)],
+             thorough=[{"id": "bwalk-f%02d" % f, "entry": "HarnessC03Bundle", "params": {"file": f}} for f in range(24)],
+             reach=["package-prepared"], sample_every=10))
+CHECKS["C03"]["groups"][-1]["native_overlays"] = CHECKS["C03"]["groups"][-1]["native_overlays"] + ["native/regexref_native.go"]
+CHECKS["C03"]["anchors"] += ["github.com/hashicorp/go-slug/sourcebundle.packagePrepareWalkFn$1"]
+CHECKS["C03"]["bounds"]["quick"] += "; bundle layer: a fetched package with the same tree and 24 rule files (incl. root-anchored ones), bundle directory given directly or through a symlink: the files left in the package directory are those the rule language keeps"
+CHECKS["C03"]["bounds"]["thorough"] += "; bundle layer as quick"
+CHECKS["C03"]["level_note"] = CHECKS["C03"]["level_note"].replace("the bundle builder's deletion walk is covered under C10.", "the bundle builder's deletion walk runs over the same trees and rule files (bundle layer).")
+
+# C19: trees that outgrow PATH_MAX, link cycles between directories outside the tree
+CHECKS["C19"]["groups"].append(
+    slug_group("odd-trees", ["harness/slug/unpack.go", "harness/slug/pack.go"],
+               quick=[{"id": "deep-o%d" % o, "entry": "HarnessC19DeepTree", "params": {"levels": 17, "opts": o}, "no_panic": True, "no_hang": True, "max_steps": 20000000} for o in (0, 1, 2)]
+               + [{"id": "ext-cycle", "entry": "HarnessC19ExtCycle", "no_panic": True, "no_hang": True, "max_steps": 3000000, "shards": 4, "_w": 30}],
+               thorough=[{"id": "deep-o%d" % o, "entry": "HarnessC19DeepTree", "params": {"levels": 18, "opts": o}, "no_panic": True, "no_hang": True, "max_steps": 20000000} for o in (0, 1, 2, 3)]
+               + [{"id": "ext-cycle", "entry": "HarnessC19ExtCycle", "no_panic": True, "no_hang": True, "max_steps": 3000000, "shards": 4}],
+               reach=["deep-tree-walked", "ext-cycle-packed"], sample_every=1, isolated=True))
+CHECKS["C19"]["bounds"]["quick"] += "; Pack over a chain of 17 nested directories with 255-byte names (the absolute path outgrows PATH_MAX, so the walk lists an entry it cannot stat; vfs model enforces PATH_MAX), 3 option sets; Pack with dereferencing into a two-directory link cycle outside the tree (3 x 4 x 5 link spellings, with and without ignore processing)"
+CHECKS["C19"]["bounds"]["thorough"] += "; deep chain of 18 levels, 4 option sets; the external cycle as quick"
+
+# The thorough tier contains everything the quick tier runs (same ids are replaced by their deeper variants).
+for _pid, _cfg in CHECKS.items():
+    for _g in _cfg["groups"]:
+        _ids = {it["id"] for it in _g["thorough"]}
+        _g["thorough"] = list(_g["thorough"]) + [it for it in _g["quick"] if it["id"] not in _ids]
+    if "thorough" in _cfg.get("bounds", {}) and "plus every quick-tier item" not in _cfg["bounds"]["thorough"]:
+        _cfg["bounds"] = dict(_cfg["bounds"], thorough=_cfg["bounds"]["thorough"] + "; plus every quick-tier item")
